@@ -473,7 +473,7 @@ for _name in UNREGISTERED:
     HARNESSES.pop(_name, None)
 
 # properties that are served only by harnesses naming them explicitly
-KERNEL_ONLY_PROPS = ("C03", "C05", "C08", "C14", "C18", "C19")
+KERNEL_ONLY_PROPS = ("C03", "C04", "C05", "C08", "C14", "C18", "C19")
 
 
 def harnesses_for(prop, tier):
